@@ -138,6 +138,29 @@ def gen_cases(ctx):
         cases.append("%s %d %d %s %d %d" % (rng.choice(["CHAINS", "CHAINS", "CHAIN"]), blocks, per, ",".join(st), n, rng.below(1 << 30) + 1))
     for _ in range(ctx.pick(25, 300)):
         cases.append("POOL %d %d %d %d" % (rng.range(1, 6), rng.range(1, 5), rng.choice([0, 1, 2, rng.range(0, 300)]), rng.below(1 << 30) + 1))
+    # the file workers of util/stream/io.hh as first / last stage: Read / PRead over files of exactly k blocks (k = 0, 1, 2, many) and
+    # +-1 record, Stream / Link sources in front of stages that empty 0 .. more than block_count whole blocks, Write / PWrite /
+    # WriteAndRecycle at the end; oracle: the run terminates and the output file holds exactly the surviving records in order
+    for _ in range(ctx.pick(70, 900)):
+        blocks = rng.choice([1, 2, 2, 3, 4, rng.range(1, 5)])
+        per = rng.choice([1, 2, 4, 8, 16, 32, rng.range(1, 12)])
+        nblk = rng.choice([0, 1, 2, 3, blocks, blocks + 1, 12, rng.range(0, 40)])
+        n = max(0, nblk * per + rng.choice([0, 0, 0, 0, 1, -1, rng.range(0, per - 1)]))
+        src = rng.choice(["pread", "pread", "read", "stream", "stream", "link"])
+        sink = rng.choice(["war", "war", "write", "pwrite", "stream", "link"])
+        st = []
+        for _ in range(rng.choice([0, 1, 1, 2])):
+            kind = rng.choice(["d", "d", "d", "f1", "s", "a", "p"])
+            if kind == "d":
+                first = rng.choice([0, 0, 1, rng.range(0, max(0, nblk))])
+                cnt = rng.choice([1, 2, blocks - 1, blocks, blocks, blocks + 1, 2 * blocks + 1, nblk + 1, rng.range(0, 8)])     # whole blocks emptied: fewer than / exactly / more than block_count
+                lo = max(0, first * per + 1 + rng.choice([0, 0, 0, -1, 1]))
+                st.append("d%d-%d" % (lo, max(lo, (first + max(0, cnt)) * per + 1 + rng.choice([0, 0, 0, -1, 1]))))
+            elif kind in "sa":
+                st.append("%s%d" % (kind, rng.range(1, 9)))
+            else:
+                st.append(kind)
+        cases.append("CHAINIO %d %d %s %d %d %s %s" % (blocks, per, ",".join(st) or "-", n, rng.below(1 << 30) + 1, src, sink))
     # "fill, then drain": the source runs to completion (data + poison) before any consumer is attached; block_count 2..5 and
     # data of exactly block_count-1 blocks, one block less, one block more (then the source must park until the drain starts)
     for _ in range(ctx.pick(40, 500)):
@@ -493,6 +516,11 @@ def check(ctx, exe, cases, with_model=True):
             elif oracle_caps(c, o):
                 cap_notes.append((c, o, oracle_caps(c, o)))
             continue
+        if f[0] == "CHAINIO":
+            m = oracle_chain(c, o)
+            if m:
+                spec_fail.append(("chain:io:%s-%s" % (f[6], f[7]), c, o, m))
+            continue
         if f[0] in ("CHAIN", "CHAINS") and o.startswith("ok ") and oracle_caps(c, o):
             cap_notes.append((c, o, oracle_caps(c, o)))
         if f[0] in ("CHAIN", "CHAINS"):
@@ -558,7 +586,7 @@ def check(ctx, exe, cases, with_model=True):
         except vlib.ModelBroken as e:
             model_broken = str(e)
     # chains and pools: the extracted atomic-FIFO models under their own seed-driven schedules must deliver the same result
-    cp = [(c, o) for c, o in zip(cases, iout) if c.split()[0] in ("CHAIN", "CHAINS", "CHAINF", "CHAINFS", "SIG", "POOL", "POOLF") and o.startswith("ok ") or c.startswith("LIFE") and (o.startswith("bs=") or o == "config-exception")]
+    cp = [(c, o) for c, o in zip(cases, iout) if c.split()[0] in ("CHAIN", "CHAINS", "CHAINF", "CHAINFS", "CHAINIO", "SIG", "POOL", "POOLF") and o.startswith("ok ") or c.startswith("LIFE") and (o.startswith("bs=") or o == "config-exception")]
     if with_model and cp and model_broken is None:
         try:
             model = vlib.ocaml_model("C17")
